@@ -287,3 +287,101 @@ def aux(c):
     out = c.run(NullServer(app).service.op, 5)
     c.check('returns_primary_value', out.returned and out.value == 1, detail=repr(out))
     c.check('both_ran_primary_first', ran == ['prim', 'aux'], detail=ran)
+
+
+# ------------------------------------------------------------------------------------------ Ignored, every body style
+
+def _ign_service():
+    class Pair(ComplexModel):
+        __namespace__ = TNS
+        a = Integer
+        b = Unicode
+
+    class ISvc(ServiceBase):
+        @rpc(Integer, _returns=Integer)
+        def wrapped(ctx, i):
+            return Ignored(i)
+
+        @rpc(Integer, _returns=Unicode, _body_style='out_bare')
+        def out_bare_primitive(ctx, i):
+            return Ignored(i)
+
+        @rpc(Integer, _returns=Pair, _body_style='out_bare')
+        def out_bare_complex(ctx, i):
+            return Ignored(i)
+
+        @rpc(Pair, _returns=Pair, _body_style='bare')
+        def bare_complex(ctx, p):
+            return Ignored(p.a)
+
+        @rpc(Pair, _returns=Integer, _body_style='bare')
+        def bare_primitive(ctx, p):
+            return Ignored(p.a)
+
+        @rpc(Integer, _returns=Pair)
+        def wrapped_complex(ctx, i):
+            return Ignored(i)
+
+        @rpc(Integer, _returns=Integer)
+        def control(ctx, i):
+            return i + 1
+    return ISvc, Pair
+
+
+def _mk_ignored(wire):
+    @obligation('C18.ignored.%s' % wire, targets=['spyne.server._base:ServerBase.get_out_object',
+                                                 'spyne.server.null:_FunctionCall.__call__'],
+                bounded="6 methods returning Ignored: wrapped / out_bare / bare body styles x primitive / complex return type",
+                desc="an Ignored return is delivered to the direct (NullServer) caller as it is, and the same call over the "
+                     "wire is answered normally (200) with an empty result -- for every body style and return type")
+    def ob(c):
+        from spyne.protocol.xml import XmlDocument
+        from spyne.protocol.soap import Soap11
+        name = c.choose(['wrapped', 'out_bare_primitive', 'out_bare_complex', 'bare_complex', 'bare_primitive',
+                         'wrapped_complex', 'control'], 'method')
+        ISvc, Pair = _ign_service()
+        P = {'json': JsonDocument, 'xml': XmlDocument, 'soap11': Soap11}[wire]
+        app = Application([ISvc], TNS, in_protocol=P(), out_protocol=P())
+        server = NullServer(Application([ISvc], TNS, in_protocol=JsonDocument(), out_protocol=JsonDocument()))
+        if name.startswith('bare'):
+            out = c.run(getattr(server.service, name), 5, 'x')
+        else:
+            out = c.run(getattr(server.service, name), 5)
+        c.check('null_returns', out.returned, detail=repr(out))
+        if out.returned and name != 'control':
+            c.check('ignored_delivered_to_direct_caller', isinstance(out.value, Ignored) and list(out.value.args) == [5],
+                    detail=repr(out.value))
+        # the same call over the wire
+        if wire == 'json':
+            doc = {name: ({'a': 5, 'b': 'x'} if name.startswith('bare') else {'i': 5})}
+            body, ctype = json.dumps(doc).encode(), 'application/json'
+        else:
+            inner = '<tns:a>5</tns:a><tns:b>x</tns:b>' if name.startswith('bare') else '<tns:i>5</tns:i>'
+            xml = '<tns:%s xmlns:tns="%s">%s</tns:%s>' % (name, TNS, inner, name)
+            body = xml.encode() if wire == 'xml' else (
+                '<e:Envelope xmlns:e="http://schemas.xmlsoap.org/soap/envelope/"><e:Body>%s</e:Body></e:Envelope>' % xml).encode()
+            ctype = 'text/xml'
+        env = {'REQUEST_METHOD': 'POST', 'PATH_INFO': '/', 'QUERY_STRING': '', 'SERVER_NAME': 'h', 'SERVER_PORT': '80',
+               'wsgi.url_scheme': 'http', 'wsgi.input': io.BytesIO(body), 'CONTENT_TYPE': ctype, 'CONTENT_LENGTH': str(len(body))}
+        seen = []
+
+        def sr(status, headers, exc_info=None):
+            seen.append(status)
+        sr._pyvc_native = True
+        w = c.run(WsgiApplication(app), env, sr)
+        c.check('wire_call_returns', w.returned, detail=repr(w))
+        if not w.returned:
+            return
+        chunks = []
+        o2 = c.run(lambda: chunks.extend(list(w.value)))
+        resp = b''.join(x for x in chunks if isinstance(x, bytes))
+        c.check('wire_answers_200', o2.returned and bool(seen) and seen[0].startswith('200'), detail=(seen, repr(o2), resp[:300]))
+        if name == 'control':
+            c.check('control_value_on_the_wire', b'6' in resp, detail=resp[:200])
+        else:
+            c.check('ignored_is_empty_on_the_wire', b'5' not in resp.replace(b'2005', b'').replace(b'/05/', b''), detail=resp[:300])
+    return ob
+
+
+for _w in ('json', 'xml', 'soap11'):
+    _mk_ignored(_w)
